@@ -175,7 +175,9 @@ func createCompiledRouteHandler(route *ast.Route, bytecode []byte, wsHub *websoc
 			}
 		}
 
-		// Parse and inject request body as 'input' for POST/PUT/PATCH requests
+		// Parse the request body for POST/PUT/PATCH requests. bodyMap stays nil
+		// when there is no body or it is not a JSON object.
+		var bodyMap map[string]interface{}
 		if ctx.Request.Method == "POST" || ctx.Request.Method == "PUT" || ctx.Request.Method == "PATCH" {
 			contentType := ctx.Request.Header.Get("Content-Type")
 			shouldParseJSON := contentType == "" ||
@@ -186,25 +188,23 @@ func createCompiledRouteHandler(route *ast.Route, bytecode []byte, wsHub *websoc
 				const maxBodySize = 10 * 1024 * 1024
 				limitedReader := io.LimitReader(ctx.Request.Body, maxBodySize)
 
-				var bodyMap map[string]interface{}
 				decoder := json.NewDecoder(limitedReader)
-				if err := decoder.Decode(&bodyMap); err == nil {
-					// Validate against the declared input type, as the
-					// interpreter path does. Without this a compiled route
-					// accepts any body at all: `< input: NewUser` was enforced
-					// only when a provider injection forced interpreter mode.
-					if err := validateCompiledInput(route, bodyMap); err != nil {
-						ctx.Request.Body.Close()
-						return sendClientError(ctx, err.Error())
-					}
-					vmInstance.SetLocal("input", interfaceToValue(bodyMap))
-				} else {
-					vmInstance.SetLocal("input", vm.NullValue{})
+				if err := decoder.Decode(&bodyMap); err != nil {
+					bodyMap = nil
 				}
 				ctx.Request.Body.Close()
-			} else {
-				vmInstance.SetLocal("input", vm.NullValue{})
 			}
+		}
+
+		// Validate against the declared input type, as the interpreter path
+		// does - for every request: an absent or non-object body is checked as
+		// an empty object, so a type with required fields is never bypassed by
+		// omitting the body or sending something that is not JSON.
+		if err := validateCompiledInput(route, bodyMap); err != nil {
+			return sendClientError(ctx, err.Error())
+		}
+		if bodyMap != nil {
+			vmInstance.SetLocal("input", interfaceToValue(bodyMap))
 		} else {
 			vmInstance.SetLocal("input", vm.NullValue{})
 		}
@@ -803,6 +803,10 @@ func validateCompiledInput(route *ast.Route, body map[string]interface{}) error 
 	typeDef, exists := compiledTypeDefs[named.Name]
 	if !exists {
 		return nil
+	}
+
+	if body == nil {
+		body = map[string]interface{}{}
 	}
 
 	checker := interpreter.NewTypeChecker()
